@@ -145,6 +145,19 @@ def roundtrip(spec, inject=None):
     if s2 != s:
         raise Violation('second-serialisation-differs', '%s: %r vs %r' % (spec['cls'], s[:200], s2[:200]))
     alternative_serialisers(back, s, spec['cls'])
+    # two parses of the same text are independent objects: changing something nested in the first result must not show in a later parse
+    first = create_class_from_xml_string(cls, s)
+    first.extension_attributes['{%s}touched' % FOREIGN] = 'yes'
+    for tag, member, ccls, is_list in G.children_of(cls):
+        v = getattr(first, member, None)
+        for child in (v if isinstance(v, list) else [v] if v is not None else []):
+            child.extension_attributes['{%s}touched' % FOREIGN] = 'yes'
+            child.text = 'touched'
+        if isinstance(v, list) and v:
+            v.append(v[0])
+    again = create_class_from_xml_string(cls, s)
+    if norm(again) != a:
+        raise Violation('parse-results-share-state', '%s: after a nested change to an earlier parse result, parsing the same text again gives %s' % (spec['cls'], _first_diff(a, norm(again))))
     root = ET.fromstring(s)
     check_shape(root, expected_shape(spec), spec['cls'].split(':')[1])
     published_order(root, spec)
